@@ -366,12 +366,14 @@ func (r *rawPeer) sendGarbage(k int) {
 }
 
 // evaluate: statistics from the raw peer's point of view (after everything finished).
+// dup_id_rejections_seen: requests with an id that was re-sent while in flight and
+// that got no response (a duplicate is rejected silently: conn.go clears req.ID).
 func (r *rawPeer) evaluate() {
 	r.mu.Lock()
 	defer r.mu.Unlock()
 	for id := range r.dupSent {
 		if d := r.reqStarted[id] - r.respSeen[id]; d > 0 {
-			r.sc.countN("dup_or_unanswered_requests", d)
+			r.sc.countN("dup_id_rejections_seen", d)
 		}
 	}
 	r.sc.countN("raw_conn_calls_seen", r.connCalls)
